@@ -160,7 +160,8 @@ PROPS["C04"] = dict(
     jobs=[job("check-vs-example", "^TestCheckVsExample$", (4, 16), (8000, 300000), (600, 3000)),
           job("type-rule-reference", "^TestTypeRuleReference$", (2, 8), (6000, 300000), (600, 3000)),
           job("shared-type-object", "^TestSharedTypeObject$", (2, 8), (4000, 300000), (600, 3000)),
-          job("container-example-under-or", "^TestContainerExampleUnderOr$", (1, 4), (2000, 40000), (600, 3000))],
+          job("container-example-under-or", "^TestContainerExampleUnderOr$", (1, 4), (2000, 40000), (600, 3000)),
+          job("scalar-example-under-or", "^TestScalarExampleUnderOr$", (1, 4), (2000, 40000), (600, 3000))],
 )
 PROPS["C08"] = dict(
     pkg="c08", level="exploration", exhaustive_claim=False,
